@@ -855,7 +855,17 @@ class Folder:
             return divmod(self.fold(args[0]), self.fold(args[1]))
         if name == "isinstance" and len(args) == 2:
             v = self.fold(args[0])
-            kn = [dotted(k) for k in (args[1].elts if isinstance(args[1], ast.Tuple) else [args[1]])]
+            class_exprs = list(args[1].elts if isinstance(args[1], ast.Tuple) else [args[1]])
+            kn = []
+            for k in class_exprs:
+                dk = dotted(k)
+                if dk is not None and dk.split(".")[0] in self.env:
+                    # the class is held in a variable (e.g. a row of a dispatch table)
+                    kv = self.fold(k)
+                    for x in (kv if isinstance(kv, (tuple, list)) else [kv]):
+                        kn.append(x.name if isinstance(x, ClassInfo) else getattr(x, "__name__", None) if isinstance(x, type) else dk)
+                else:
+                    kn.append(dk)
             pyk = {"bytes": bytes, "bytearray": bytearray, "int": int, "bool": bool, "str": str, "float": float, "complex": complex, "fractions.Fraction": Fraction, "Fraction": Fraction, "set": (set, frozenset), "frozenset": frozenset, "list": list, "tuple": tuple, "dict": dict}
             if all(k in pyk for k in kn) and not isinstance(v, Sym) and not isinstance(getattr(v, "_isa_", None), (set, frozenset)):
                 return any(isinstance(v, pyk[k]) for k in kn)  # type: ignore
@@ -863,7 +873,7 @@ class Folder:
                 # a plain value is an instance of the builtin classes listed, never of a class of the repository
                 res_ = False
                 known = True
-                for k_, node_ in zip(kn, (args[1].elts if isinstance(args[1], ast.Tuple) else [args[1]])):
+                for k_, node_ in zip(kn, class_exprs + class_exprs[-1:] * (len(kn) - len(class_exprs))):
                     if k_ in pyk:
                         res_ = res_ or isinstance(v, pyk[k_])  # type: ignore
                     else:
